@@ -105,7 +105,12 @@ func (e mwEngine) Gen(t *rapid.T, tier string) any {
 			ev.Tags = append(ev.Tags, []string{"t", fmt.Sprintf("v%d", j)})
 		}
 		if e.prop == "C17" && rapid.IntRange(0, 2).Draw(t, "ptag") == 0 {
-			ev.Tags = append(ev.Tags, []string{"p", ref.Authors[rapid.IntRange(0, 1).Draw(t, "pwho")].Pubkey})
+			pt := []string{"p", ref.Authors[rapid.IntRange(0, 1).Draw(t, "pwho")].Pubkey}
+			if rapid.IntRange(0, 1).Draw(t, "pfirst") == 0 {
+				ev.Tags = append([][]string{pt}, ev.Tags...) // tag order varies between events
+			} else {
+				ev.Tags = append(ev.Tags, pt)
+			}
 		}
 		ev.Content = strings.Repeat("x", rapid.SampledFrom([]int{0, max(lim-1, 0), lim, lim + 1, 40}).Draw(t, "contentlen"))
 		ev.Content += "" // ASCII only: length in bytes = length in characters
